@@ -319,7 +319,34 @@ func EqualNodes(a, b ipld.Node) bool {
 // SameMapOrder reports whether all maps reachable in a and b (assumed
 // EqualNodes) list their keys in the same order.
 func SameMapOrder(a, b ipld.Node) bool {
-	return datamodel.DeepEqual(a, b) || !EqualNodes(a, b)
+	if a == nil || b == nil || a.Kind() != b.Kind() {
+		return true
+	}
+	switch a.Kind() {
+	case ipld.Kind_List:
+		for i := int64(0); i < a.Length() && i < b.Length(); i++ {
+			x, _ := a.LookupByIndex(i)
+			y, _ := b.LookupByIndex(i)
+			if !SameMapOrder(x, y) {
+				return false
+			}
+		}
+	case ipld.Kind_Map:
+		ia, ib := a.MapIterator(), b.MapIterator()
+		for !ia.Done() && !ib.Done() {
+			ka, va, e1 := ia.Next()
+			kb, vb, e2 := ib.Next()
+			if e1 != nil || e2 != nil {
+				return true
+			}
+			sa, _ := ka.AsString()
+			sb, _ := kb.AsString()
+			if sa != sb || !SameMapOrder(va, vb) {
+				return false
+			}
+		}
+	}
+	return true
 }
 
 // Walk calls f on v and every nested value.
